@@ -125,6 +125,16 @@ def _load(loop, path: str, via_context: bool, via_argument: bool = False):
             gw = _new_gateway(own)
             try:
                 loop.run_until_complete(asyncio.wait_for(gw.persistence.load(path), 20))
+                # importing a file does not change where the registry is saved: the next save goes to the object's own file
+                with open(path, "rb") as fil:
+                    imported = fil.read()
+                loop.run_until_complete(asyncio.wait_for(gw.persistence.save(), 20))
+                with open(path, "rb") as fil:
+                    untouched = fil.read() == imported
+                with open(own, "rb") as fil:
+                    own_holds = json.loads(fil.read().decode("utf-8") or "{}")
+                if not untouched or (gw.nodes and not own_holds):
+                    return "other:save after load(path) went to the imported file", proj(gw)["nodes"]
             finally:
                 os.unlink(own)
         elif via_context:
